@@ -9,6 +9,24 @@ CHECKS = {
  "C07": dict(level="exploration", design="3/C07", technique="differential reference-model monitor (independent terminfo(5) interpreter, ncurses cross-check) over enumerated database domains and generated programs",
     text="Runs tcell's TParm on every parameterized string of the database over its parameter domain (exhaustive: cursor 0..299^2 quick / 0..1023^2 thorough, colour 0..255, RGB lattice quick / all 2^24 thorough) and on seeded well-formed programs of the terminfo(5) grammar, comparing each output with an independently written stack machine; random/truncated strings for robustness. Held = no disagreement on what was run.",
     note="Trusted: the tiref interpreter (cross-checked against ncurses tparm on integer-only programs in every run) and the terminfo(5) reading; programs where the reference reports a strict-mode fault are excluded."),
+ "C02": dict(level="exploration", design="3/C02", technique="differential trace monitor on the real input parser (synchronous verif hook): one-read vs partitioned decoding, framing oracle, pipeline cross-check",
+    text="Feeds seeded token strings and random byte strings to tcell's real collectEventsFromInput for every database entry, in one read and under all (n<=10) or many partitions with no expiry in between, and requires identical event lists, zero leftover after expiry and no panic; state-free token strings must decode to the concatenation of their tokens; a sample goes through the real inputLoop/mainLoop/PollEvent path.",
+    note="Assumes expire=false on every chunk models 'no timeout in between'; the 50 ms timer itself is exercised only by C06. Sampled, not exhaustive, over strings."),
+ "C03": dict(level="exploration", design="3/C03", technique="exhaustive enumeration of the key tables of all database entries through the real parser, against acceptance sets derived independently from the entry's field names and an independent xterm modifier encoder",
+    text="Every Key* field of every entry, every control byte, DEL, lone ESC, the Alt prefix, every xterm modifier parameter 2..16 on cursor/editing/function keys, prefix-freedom of descriptions and built tables, ordered pairs (sampled in quick, all in thorough) and sampled triples.",
+    note="Trusted: the mapping field name -> (key, modifiers) and the xterm modifier encoding written in the harness; triples are sampled."),
+ "C08": dict(level="exploration", design="3/C08", technique="lock-step reference-model monitor of the public CellBuffer API with a three-valued dirty oracle",
+    text="Seeded histories of SetContent/Fill/Resize/Invalidate/SetDirty/LockCell/UnlockCell on a real CellBuffer; after every operation every cell and the out-of-range ring are compared with a reference array (content exactly, Dirty must-true/must-false/unconstrained).",
+    note="Width from go-runewidth (non East Asian); Dirty after Resize demanded only when dimensions change; histories are sampled."),
+ "C15": dict(level="exploration", design="3/C15", technique="differential monitor: independent padding grammar, per-family cursor-address decoders and the reference SGR interpreter; exhaustive over short strings and over the 0..300 grids",
+    text="TPuts output vs an independent $<...> grammar for every string up to length 6 (quick) / 7 (thorough) over an 11-symbol alphabet plus random longer ones; TGoto for every entry x 301x301 positions decoded by the entry's addressing family; TColor for every entry x (-1..300)^2 interpreted by the reference SGR interpreter; two sound timing directions.",
+    note="Cursor-addressing family is assigned by the harness from the entry name; timing checks only use directions a loaded machine cannot falsify."),
+ "C16": dict(level="exploration", design="3/C16", technique="exhaustive comparison with independent references (xterm palette formula, CSS keyword table, own sRGB->CIELAB CIE76)",
+    text="All 256 palette indices, all CSS3 keywords (both directions), all 2^24 RGB values through every conversion, invalid/special colours; FindColor against the 8/16/88/256 palettes on a lattice + random (quick) or all 2^24 (thorough) and random palettes including equal-size runs.",
+    note="CIELAB from sRGB primaries and D65 at full precision; ties within 1e-9 accepted."),
+ "C20": dict(level="exploration", design="3/C20", technique="reference-model monitor with recording parent View and recording child widgets; exact rational share oracle",
+    text="Seeded ViewPort geometries/op sequences checked call by call at the recording parent (mapping, clipping, offset limits in inside-before => inside-after form) and seeded BoxLayouts (<= 8 children, nested) checked from the ViewPorts handed to children and from what a full Draw paints on the root: order, disjointness, containment, preferred extent, exact surplus shares.",
+    note="The rectangle of a ViewPort is what GetPhysical/Size report; nested layouts are not re-oriented after creation (the statement does not say when a child's changed preferred size must be picked up)."),
 }
 PENDING = {}
 
